@@ -57,8 +57,8 @@ class VmTools:
             p = subprocess.run([self.vrun, dumpfile, "--max-steps", str(max_steps), "--entry", entry],
                                stdout=subprocess.PIPE, stderr=subprocess.PIPE, timeout=timeout)
         except subprocess.TimeoutExpired:
-            return {"module": "timeout", "verify": "timeout", "lockstep": "timeout", "maxdepth": {}}
-        res = {"module": "", "verify": "", "lockstep": "", "maxdepth": {}, "stderr": p.stderr.decode(errors="replace")[-500:]}
+            return {"module": "timeout", "verify": "timeout", "lockstep": "timeout", "witness": "", "maxdepth": {}}
+        res = {"module": "", "verify": "", "lockstep": "", "witness": "", "maxdepth": {}, "stderr": p.stderr.decode(errors="replace")[-500:]}
         for l in p.stdout.decode(errors="replace").splitlines():
             if l.startswith("MODULE"):
                 res["module"] = l
@@ -66,6 +66,8 @@ class VmTools:
                 res["verify"] = l
             elif l.startswith("LOCKSTEP"):
                 res["lockstep"] = l
+            elif l.startswith("WITNESS"):
+                res["witness"] = l
             elif l.startswith("MAXDEPTH"):
                 m = re.match(r"MAXDEPTH f=(\d+) d=(\d+)", l)
                 if m:
@@ -84,8 +86,13 @@ def read_dump(path):
                 continue
             k = p[0]
             if k == "t":
-                d["trace"].append(tuple(int(x) for x in p[1:8]))
-            elif k == "I":
+                try:
+                    t = tuple(int(x) for x in p[1:8])
+                except ValueError:
+                    continue          # truncated line of a run that died
+                if len(t) == 7:
+                    d["trace"].append(t)
+            elif k == "I" and len(p) >= 6:
                 d["code"].append((int(p[2]), int(p[3]), int(p[4]), int(p[5])))
             elif k == "X":
                 d["exct"].append((int(p[1]), int(p[2])))
